@@ -64,3 +64,12 @@ fn hints_name_the_bound_parameter_at_the_arguments_first_character_and_the_field
     want.sort();
     assert_eq!(got, want, "WITNESS inlay hints of {t:?}");
 }
+#[test]
+fn a_class_named_as_a_type_inside_an_argument_gets_no_hint_of_its_own() {
+    let t = "class Foo<int p>;\nclass Outer<Foo f>;\ndef X : Outer<!cast<Foo>(\"y\")>;\n";
+    let (a, ids) = analysis(&[("/main.td", t)]);
+    let full = TextRange::new(0.into(), (t.len() as u32).into());
+    let got: Vec<(usize, String)> = a.inlay_hint(FileRange::new(ids[0], full)).unwrap_or_default().into_iter()
+        .map(|h| (usize::from(h.position), h.label.trim_matches(|c: char| c == ':' || c == '=' || c.is_whitespace()).to_string())).collect();
+    assert_eq!(got, vec![(t.find("!cast").unwrap(), "f".to_string())], "WITNESS inlay hints of {t:?}: the only positional argument binds Outer's parameter f");
+}
